@@ -13,6 +13,7 @@
 -/
 import IbicusModel.Model.Proto
 import IbicusModel.Model.Isimip
+import IbicusModel.Model.IsimipSession
 
 open Proto Model.Stats Model.Isimip
 
@@ -156,8 +157,51 @@ def showStep6 (r : Step6Out) : String :=
 def elaOracles (o : Oracles) (li lo ei eo : List Rat) (l10 : Rat) : Oracles :=
   { o with logit := tableFn 1 li lo, expit := tableFn 1 ei eo, log10 := l10 }
 
+/-! ### C10: settings of a re-used object after attribute re-assignments (`Model.IsimipSession`) -/
+
+def showExt : ExtRat → String
+  | .negInf => "-inf" | .posInf => "inf" | .fin q => showRat q
+
+def showBool (b : Bool) : String := if b then "1" else "0"
+
+def showTrend : TrendMethod → String
+  | .additive => "additive" | .multiplicative => "multiplicative" | .mixed => "mixed" | .bounded => "bounded"
+
+def showEcdf : EcdfMethod → String
+  | .step => "step_function" | .linear => "linear_interpolation"
+
+def showIecdf : IecdfMethod → String
+  | .inverted_cdf => "inverted_cdf" | .averaged_inverted_cdf => "averaged_inverted_cdf"
+  | .closest_observation => "closest_observation" | .interpolated_inverted_cdf => "interpolated_inverted_cdf"
+  | .hazen => "hazen" | .weibull => "weibull" | .linear => "linear" | .median_unbiased => "median_unbiased"
+  | .normal_unbiased => "normal_unbiased"
+
+def showMode : NpqmMode → String
+  | .normal => "normal" | .isimipv30 => "isimipv3.0"
+
+/-- the 19-field cfg token (inverse of `cfg?`) -/
+def showCfg (c : Cfg) : String :=
+  ";".intercalate [showTrend c.trendMethod, showBool c.nonparametricQm, showBool c.detrending, showExt c.lowerBound,
+    showExt c.lowerThreshold, showExt c.upperBound, showExt c.upperThreshold, showBool c.imputeMissingValues,
+    showBool c.detrendingWithSignificanceTest, showBool c.trendTransferOnlyWithinThreshold, showBool c.biasCorrectFrequencies,
+    showBool c.eventLikelihoodAdjustment, showBool c.ksTest, showEcdf c.ecdfMethod, showIecdf c.iecdfMethod,
+    showMode c.modeNpqm, showBool c.riceOrWeibull, showBool c.scaleByAnnualCycle, toString c.windowLengthAnnualCycle]
+
+/-- one block `lb,lt,ub,ut,npqm,rice`, each `_` (left alone) or a value -/
+def assign? (s : String) : Option Model.IsimipSession.Assign :=
+  let opt {α} (p : String → Option α) (t : String) : Option (Option α) := if t = "_" then some none else (p t).map some
+  match s.splitOn "," with
+  | [lb, lt, ub, ut, npqm, rice] => do
+    pure { lowerBound := ← opt ext? lb, lowerThreshold := ← opt ext? lt, upperBound := ← opt ext? ub,
+           upperThreshold := ← opt ext? ut, nonparametricQm := ← opt bool? npqm, riceOrWeibull := ← opt bool? rice }
+  | _ => none
+
 def step (line : String) : String :=
   match line.splitOn " " with
+  | ["assigncfg", c, blocks] =>
+    match cfg? c, (if blocks = "-" then some [] else (blocks.splitOn "|").mapM assign?) with
+    | some c, some as => "ok " ++ showCfg (Model.IsimipSession.cfgAfter c as)
+    | _, _ => "bad-op"
   | ["step3", c, bits, obs, H, F, yO, yH, yF] =>
     match cfg? c, orc? bits [] [], rats? obs, rats? H, rats? F, ints? yO, ints? yH, ints? yF with
     | some c, some o, some obs, some H, some F, some yO, some yH, some yF =>
